@@ -199,6 +199,8 @@ pub fn replay(v: &Value) {
     let engine = v["engine"].as_str().unwrap_or("");
     match engine {
         "kvvmc" => crate::kvvmc::replay(v),
+        "txgrid-c04" => crate::c04::replay(v),
+        "txgrid-c05" => crate::c05::replay(v),
         #[cfg(vls_verif)]
         "concur" => crate::concur::replay(v),
         _ => {
